@@ -676,7 +676,8 @@ def r01_5(chk, repo, cr):
                         base = a[1].key()
                         k = string_value(a[2][0])
                         kind = None
-                        if base.endswith("unit_cell_atoms()") or "_unit_cell_atom_dict')" in base and base.startswith("getattr("):
+                        if base.endswith("unit_cell_atoms()") or "_unit_cell_atom_dict')" in base and base.startswith("getattr(") \
+                                or base.endswith("._unit_cell_atom_dict"):
                             kind = "uc"
                         elif base.endswith(")") and ".slab(" in base and base.rfind(".slab(") > base.rfind("]"):
                             kind = "slab"
